@@ -95,6 +95,23 @@ def _observe_one(args):
         return (i, j, "exc", (type(e).__name__, str(e)[:400], raise_site(e)), time.time() - t0)
 
 
+def sample_configs(items, cfgs, per_item, salt=0):
+    """quick tier: every program runs under `per_item` of the configurations, rotating so that every configuration is used by
+    about the same number of programs (items carrying a fixed key - minimized past failures - keep all configurations)"""
+    n = len(cfgs)
+    for i, it in enumerate(items):
+        if it.get("key") or per_item >= n:
+            continue
+        chosen = {(i * per_item + salt + k * (n // per_item if per_item else 1) + (i // n)) % n for k in range(per_item)}
+        k = 0
+        while len(chosen) < per_item:
+            chosen.add((i + k) % n)
+            k += 1
+        prev = it.get("applicable", lambda c: True)
+        names = {cfgs[j].name for j in chosen}
+        it["applicable"] = (lambda c, prev=prev, names=names: prev(c) and c.name in names)
+
+
 def observe_all(items, cfgs, procs=3):
     """-> dict (i, j) -> ('ok', obs) | ('exc', (type, msg))"""
     global _ITEMS, _CFGS
